@@ -142,3 +142,8 @@ Section Top.
       end
     end.
 End Top.
+
+(* ---- well-formedness of an identity graph, as a checker (premise of Proofs/OrdererWalk.v) ---- *)
+Definition boundedb (G : graph) (l : list nat) : bool := forallb (fun c => Nat.ltb c (length G)) l.
+Definition wf_graphb (paths : list str) (G : graph) : bool :=
+  forallb (fun n => boundedb G (kids paths G n)) (seq 0 (length G)).
